@@ -244,6 +244,29 @@ def run_mhn_stream(ctx, cuqi, thorough, H):
         else:
             probes_l.append(f"mhnprobe {cs['entry']} {q(a)} {q(b)} {q(c)} {m_tok(cs['m'])} {qv(CAND_T + [0.0, -0.5])}")
     po = ctx.lean.drive(probes_l)
+    # K1 / K2 of the normal-vs-sqrt-gamma choice for every parameter triple a draw is made with: when they agree to
+    # 1e-9 the choice depends on the last bits of `gamma()` / `power()` and the case is skipped (counted)
+    kl, kidx = [], []
+    for cs in cases:
+        a, b, c = cs["pars"]
+        if cs["entry"] == "sample":
+            vals_a = [float(a)] if isinstance(a, (float, int, np.floating)) else [float(x) for x in a]
+            trip = [(x, x, x) for x in vals_a]
+        elif cs["entry"] in ("private", "pg1"):
+            trip = [(a, b, c)]
+        else:
+            trip = []
+        kidx.append((len(kl), len(trip)))
+        kl += [f"mhn {q(x)} {q(y)} {q(z)}" for (x, y, z) in trip]
+    ko = ctx.lean.drive(kl) if kl else []
+    for cs, (k0, kn) in zip(cases, kidx):
+        cs["k_close"] = False
+        for o in ko[k0:k0 + kn]:
+            t = o.split()
+            if t and t[0] == "pg1":
+                K1, K2 = H.fl(t[1]), H.fl(t[2])
+                if not (abs(K2 - K1) > 1e-9 * max(abs(K1), abs(K2))):
+                    cs["k_close"] = True
     pos = 0
     run_l = []
     for cs in cases:
@@ -251,6 +274,11 @@ def run_mhn_stream(ctx, cuqi, thorough, H):
         pr = [parse_probe(H, po[pos + i]) for i in range(nd)]
         raw = po[pos:pos + nd]
         pos += nd
+        if cs["k_close"]:
+            cov["skipped_K1_close_to_K2"] = cov.get("skipped_K1_close_to_K2", 0) + 1
+            cs["probe"], cs["probe_raw"], cs["iters"], cs["stream"] = pr, raw, [], None
+            run_l.append("noop")
+            continue
         stream, iters = [], []
         for i in range(nd):
             if pr[i] is None:
